@@ -42,6 +42,19 @@ CLAIMED = {
              "result listed and matching, None iff no listed match, termination; attribute equality abstracted to a predicate the "
              "harness computes with hasattr and ==.",
         note=N, design="6/C08", technique="Coq proof (lock-step simulation search vs traversal) + state-import correspondence"),
+    "C09": dict(
+        text="Proof (full): per-link decision table, answer = exactly the qualifying links of a.links (complete, duplicate-free), size "
+             "equation with neighbors(), emptiness after unlink for every setting and invariance of other pairs (on proper two-ended "
+             "graphs; the lost-end corner is characterised exactly); cascade regenerated from helpers.py by the translator on every run.",
+        note=N + " Translator in the trusted base for the secondary tie only.", design="6/C09",
+        technique="Coq proof (finite case analysis + list induction) over translator-regenerated cascade + exhaustive row correspondence"),
+    "C12": dict(
+        text="Proof (partial): for the container the library retains (the neighbors() memo) a loc-level model proves that arbitrary "
+             "client edits of any list ever handed out never change a later answer (and refutes it for the pinned, non-copying code). "
+             "That all other accessors and constructor/builder arguments are copied is decided by an exhaustive accessor x edit x "
+             "caching matrix and an input-container matrix on the implementation, plus lock-step histories with client edits.",
+        note=N + " By-value modelling of the copying accessors is validated by the matrix, not proved.", design="6/C12",
+        technique="Coq proof (escape invariant over a heap of list cells) + exhaustive implementation matrix + lock-step correspondence"),
     "C18": dict(
         text="Proof (full): theorems over all histories of constructions/clears over any set of classes "
              "(same instance between clears, __init__ once with first args, own instance per class, clear frame rules), "
